@@ -31,6 +31,8 @@ def main() -> None:
     run.props("Props/TablesAgree.v")
     run.props("Props/C01.v")
     q = run.tier == "quick"
+    import core
+    core.set_case_timeout(6)
     cases, stats = gen_cases(run.seed, 700 if q else 8000, 300 if q else 4000, 400 if q else 6000, "C02")
     for k, v in stats.items():
         run.count("gen:" + k, v)
